@@ -178,7 +178,7 @@ func c18(c *Ctx) {
 		var drain, lock ssa.Instruction
 		for _, ci := range core.AllCalls(Cl) {
 			n := core.CalleeName(ci.Common())
-			if strings.HasSuffix(n, "MultiplexingListener).drainConnections") && drain == nil {
+			if isDrain(c, ci.Common()) && drain == nil {
 				drain = ci
 			}
 			if strings.HasSuffix(n, "sync.RWMutex).Lock") && lock == nil {
@@ -208,7 +208,7 @@ func c18(c *Ctx) {
 			switch x := in.(type) {
 			case ssa.CallInstruction:
 				n := core.CalleeName(x.Common())
-				return strings.HasSuffix(n, "MultiplexingListener).drainConnections") || strings.HasSuffix(n, "sync.Once).Do")
+				return isDrain(c, x.Common()) || strings.HasSuffix(n, "sync.Once).Do")
 			case *ssa.Store:
 				w, isF := core.IsFieldAccess(x, "net.MultiplexingListener", "closed")
 				return isF && w
@@ -222,7 +222,7 @@ func c18(c *Ctx) {
 			}
 			switch x := site.Instr.(type) {
 			case ssa.CallInstruction:
-				if strings.HasSuffix(core.CalleeName(x.Common()), "drainConnections") {
+				if isDrain(c, x.Common()) {
 					steps["drain started"] = blk
 				} else {
 					steps["incoming closed via closedOnce"] = blk
@@ -465,6 +465,22 @@ func c18Ownership(c *Ctx) {
 				}
 				walk(af)
 			}
+			// "go drainFn(l.incoming)": a named function started as the goroutine
+			for _, b := range f.Blocks {
+				for _, in := range b.Instrs {
+					if g, ok := in.(*ssa.Go); ok {
+						if h := core.ModuleCallee(g.Common()); h != nil && h.Parent() == nil {
+							for _, hb := range h.Blocks {
+								for _, hin := range hb.Instrs {
+									if u, ok := hin.(*ssa.UnOp); ok && u.Op.String() == "<-" {
+										body = h
+									}
+								}
+							}
+						}
+					}
+				}
+			}
 		}
 		walk(D)
 		if body == nil {
@@ -523,4 +539,14 @@ func sendsConn(in ssa.Instruction, isAlias func(ssa.Value) bool) bool {
 		}
 	}
 	return false
+}
+
+
+// isDrain: the call invokes the listener's drain starter (resolved as an anchor, rename-tolerant).
+func isDrain(c *Ctx, cc *ssa.CallCommon) bool {
+	f := c.P.Func("net", "(*MultiplexingListener).drainConnections")
+	if f == nil {
+		f, _ = c.P.FuncRenamed("net", "(*MultiplexingListener).drainConnections")
+	}
+	return f != nil && cc.StaticCallee() == f
 }
